@@ -108,6 +108,12 @@ struct ctx_t {
     std::deque<sub_ent> subs;       // index = sid (deque: stable addresses)
     std::size_t npub = 0;
     std::vector<std::pair<int, std::string>> pev;   // events in the order they happened
+    std::vector<int> in_pass;       // subscribers that were waiting when the current queue-wide operation began
+    void begin_pass() {
+        in_pass.clear();
+        for (auto &e : subs)
+            if (e.phase == PARKED || e.phase == BLOCKED || e.phase == COPARKED) in_pass.push_back(e.sid);
+    }
     std::vector<std::string> evs;
     int dummy_target = 0;
 
@@ -165,7 +171,10 @@ static void co_finished(ctx_t *c, sub_ent *e, bool b) {
 
 static void co_follow(ctx_t *c, int sid) {
     sub_ent *f = c->get(sid);
-    if (!f || f->phase != IDLE) {
+    // canonical rule (independent of the order in which one pass resumes its awaiters): a subscriber that was itself
+    // waiting when the operation began is not taken for a follow-up
+    bool waiting_before = std::find(c->in_pass.begin(), c->in_pass.end(), sid) != c->in_pass.end();
+    if (!f || f->phase != IDLE || waiting_before) {
         c->pev.emplace_back(sid, "c" + std::to_string(sid) + "=bad");
         return;
     }
@@ -195,6 +204,10 @@ static void run_case(std::istream &in, std::size_t maxlen, std::size_t minlen) {
         std::ostringstream head;
         const std::string &op = w[0];
         int a1 = w.size() > 1 ? atoi(w[1].c_str()) : -1;
+        if (op == "pub" || op == "pubn" || op == "close" || op == "destroy" || op == "kick" || op == "kickme" || op == "end")
+            c.begin_pass();
+        else
+            c.in_pass.clear();
         if (op == "end") {
             c.pub.reset();          // closes the queue: everybody still waiting is released
             c.poll();
